@@ -292,7 +292,7 @@ def unq(s):
 class Prop:
     id = "C20"
     lean_module = "MuduoVerif.Props.C20"
-    gen_engines = ["Calendar", "Zone", "SysSkel", "TzFileSkel"]
+    gen_engines = ["Calendar", "Zone", "SysSkel", "TzFileSkel", "TsText"]
     drivers = ["calendar"]
     technique = ("Lean 4 theorems over the calendar functions translated from /repo's AST (400-year periodicity + one full cycle by "
                  "kernel evaluation) and over the zone look-ups built from extracted guards (binary-search correctness + case analysis "
@@ -311,7 +311,8 @@ class Prop:
                   "description (any number of transitions/types, signed 32/64-bit times, with or without the second block, any version "
                   "byte), sign-extends transition times, never needs a byte beyond the designations of the block it takes, refuses every "
                   "prefix that cuts into that part and reads the same table from any longer file, and every table it loads satisfies the "
-                  "first clause of WF; IPv4 text and big-endian helpers round-trip for all values. The integer "
+                  "first clause of WF; Timestamp::toString / toFormattedString (formats extracted from the source) read back to the instant "
+                  "they were printed from; IPv4 text and big-endian helpers round-trip for all values. The integer "
                   "functions, every guard of the look-ups and every parameter + the statement skeletons of the reader are re-translated "
                   "from /repo on every run; search loop and branch structure of the look-ups are tied by the differential run; agreement "
                   "with glibc is tested, not proved")
@@ -348,8 +349,11 @@ class Prop:
         "Model/TzFile.lean (what fread/fseek/std::vector::reserve/at do: short read, seek beyond the end, negative seek, length_error, "
         "out_of_range), the reference encoder TzFile.serialize (RFC 8536), harness/calendar_drv.cc compiling /repo's TimeZone.cc itself "
         "to read TimeZone::Data through the friend TimeZoneTestPeer, the Python RFC 8536 reader `tzif_read` of this plug-in",
-        "hand-written Model/Inet.lean (glibc inet_ntop/inet_pton for AF_INET, snprintf %u, bswap) and the printf forms of "
-        "Model/Calendar.lean - tied by the differential run",
+        "hand-written Model/Inet.lean (glibc inet_ntop/inet_pton for AF_INET, snprintf %u, bswap), what `%[0][width]d` prints "
+        "(Calendar.fmtInt / renderGo) and the formats of Date::toIsoString / DateTime::toIsoString in Model/Calendar.lean - tied by the "
+        "differential run; vlib/gen/tstext.py (Timestamp::toString / toFormattedString: the split of the microsecond count, the three "
+        "snprintf formats, buffers, arguments, the gmtime_r call, the showMicroseconds test -> Generated/TsText.lean, which the model "
+        "renders: timestamp_text_tied)",
         "vlib/gen/sysskel.py (clang-14 JSON AST -> Generated/SysSkel.lean: statement skeletons of every function of SocketsOps.cc, Socket.cc/.h, InetAddress.cc/.h, Endian.h, Poller.cc, poller/DefaultPoller.cc, the poller constructors/destructors, Channel::tie, createEventfd, createTimerfd; what it leaves out is listed in the generated header) and the reading Model/SysSkelDecl.lean of what the "
         "models assume of each primitive (one system call, arguments passed through, result returned unchanged, failures only logged - or exactly the declared extra work); C20 depends on inet_text_conversions_tied (InetAddress::toIpPort/toIp/port, the constructors, sockets::toIpPort/toIp/fromIpPort, the six Endian.h helpers): the code delegates to inet_ntop/inet_pton/snprintf/__bswap_* as Model/Inet.lean assumes; WHAT those compute stays the hand-written model, tied by the differential run; still trusted: the kernel's / glibc's behaviour behind each system call",
         "compiled evaluation of the decidable predicate WF by the Lean driver on each zone file (cross-checked by the Python parser)",
